@@ -95,7 +95,7 @@ def run(tier):
             V.case(e, True)
         for (l, clause) in v:
             e = t["ev"][l - 1]
-            own = clause.startswith("C12:") or clause.startswith("C05:")
+            own = clause.startswith("C12:") or clause.startswith("C05:") or clause.startswith("ANY:")
             if own:
                 V.violation(f"{PID}|trace|{clause}|P={'ge155' if e['psll'] >= 155 else 'lt155'}|L={'le101' if e['L'] <= 101 else ('ge65536' if e['L'] >= 65536 else '102to65535')}",
                             {"kind": "kaiser_trace", "spec": t["meta"], "event": l, "message": f"KaiserTrace rejected {e}: {clause}"})
